@@ -15,3 +15,19 @@ for m, tree in sorted(repo.modules.items()):
 f = HERE / "pvx" / "fixtures" / "local_names.json"
 f.write_text(json.dumps(out, indent=0, sort_keys=True) + "\n")
 print("wrote", f, len(out), "functions with locals")
+
+# reference spelling of every module-level function and method (pvx/core/canon.py): the analysis view (logging stripped, if-polarity
+# normalised) of the tree the rules were confirmed on
+import ast
+from pvx.core import canon
+ref = {}
+n_canon = 0
+for m, tree in sorted(repo.modules.items()):
+    for q, body, i, fn in canon.outer_functions(tree, m):
+        src = ast.unparse(fn)
+        ref[q] = {"raw": canon.raw_digest(fn), "src": src}
+        if canon.canonical(src) is not None:
+            n_canon += 1
+f = HERE / "pvx" / "fixtures" / "reference_functions.json"
+f.write_text(json.dumps(ref, indent=0, sort_keys=True) + "\n")
+print("wrote", f, len(ref), "functions;", n_canon, "have a canonical form")
